@@ -353,7 +353,8 @@ func checkC08(p *Prog, r *Report) {
 	ruleMustCalls(p, r, "R-PH", "C08")
 	ruleBufferReuse(p, r, "R-REUSE", map[string]bool{"cisco": true, "asa": true, "ios": true, "nxos": true})
 	ruleLookupsAudited(p, r, "R-LK", "C08", 5)
-	ruleRegexpConsts(p, r, "R-RX", "C08", 2)
+	ruleSides(p, r, "R-SIDE", "C08", map[string]bool{"panos": true, "nsx": true}, 25)
+	ruleRegexpConsts(p, r, "R-RX", "C08", 1)
 	ruleIdentityFirst(p, r, "R-IDF", "C08", 16)
 	ruleMemo(p, r, "R-MEMO", "C08", map[string]bool{"panos": true, "nsx": true}, 7)
 	ruleExitsAudited(p, r, "R-X", "C08", map[string]bool{"cisco": true, "asa": true, "ios": true}, 17)
@@ -590,9 +591,11 @@ func rulePanosEscaped(p *Prog, r *Report) {
 // ---- C14 ----
 
 func checkC14(p *Prog, r *Report) {
-	ruleRegexpConsts(p, r, "R-RX", "C14", 2)
+	ruleRegexpConsts(p, r, "R-RX", "C14", 1)
 	// a new early return in an ACL or route planner skips the phases whose order this property is about
 	ruleExitsAudited(p, r, "R-X", "C14", map[string]bool{"cisco": true, "linux": true}, 16)
+	ruleMemo(p, r, "R-MEMO", "C14", map[string]bool{"cisco": true, "linux": true}, 7)
+	ruleBufferReuse(p, r, "R-REUSE", map[string]bool{"cisco": true, "linux": true})
 	r.rule("R14.o", "Safe order of incremental changes, decided by dominance/reachability between call sites: ASA and IOS ACLs — every insert/move (addACL, moveACL) happens before the list of deletions is reversed (slices.Reverse) and before any delete (delACL); deletions run bottom-up; IOS — the initial resequence dominates everything else that emits, the final resequence comes last; routes — inserts (with joined replace) before deletes, routes sorted more-specific-first before the comparison; Linux routes — SortFunc before the add loop before the delete loop.")
 	r.rule("R14.b", "IOS block marking is complete before any move decision: in diffIOSACLs no store into the block-id slice (result of markIOSPermitDenyBlocks) is reachable from a call of moveACL, which reads it. (A split detected after an earlier hunk's move was judged 'same block' silently drops the move: lock-out.)")
 	for _, name := range []string{"(*cisco.State).diffASAACLs", "(*cisco.State).diffIOSACLs"} {
